@@ -55,6 +55,7 @@ def recv_start(ct, i):
         break
     # unary prefixes
     while j > 0 and ct[j - 1].k == 'p' and ct[j - 1].t in ('&', '*') and (j < 2 or ct[j - 2].k == 'p' and ct[j - 2].t not in (')', ']')):
+        if ct[j - 1].t == '&' and j >= 2 and ct[j - 2].t == '&' and ct[j - 2].e == ct[j - 1].s: break   # `a && x.f()`: the logical operator, not a reference
         j -= 1
     return j
 
@@ -284,6 +285,120 @@ def r6_format(src, ctx):
         i += 1
     return apply_edits(src, edits)
 
+
+
+# ---------------------------------------------------------------- R6s structured format (opt fmt-structured)
+
+def _split_args(ct, o, c):
+    """token index ranges (lo, hi) of the comma-separated arguments between ct[o]='(' and ct[c]=')'"""
+    out, depth, lo = [], 0, o + 1
+    for k in range(o + 1, c):
+        t = ct[k]
+        if t.k == 'p' and t.t in OPEN: depth += 1
+        elif t.k == 'p' and t.t in CLOSE: depth -= 1
+        elif t.k == 'p' and t.t == ',' and depth == 0:
+            out.append((lo, k)); lo = k + 1
+    if lo < c: out.append((lo, c))
+    return out
+
+
+def _parse_template(lit):
+    """Rust string literal -> [('lit', text) | ('arg', name, has_spec)]; text keeps the literal's own escapes"""
+    if not (lit.startswith('"') and lit.endswith('"')): raise Unsupported('format template is not a plain string literal: ' + lit[:40])
+    body, out, cur, i = lit[1:-1], [], '', 0
+    if '\\\n' in body: raise Unsupported('format template with a line continuation')
+    while i < len(body):
+        ch = body[i]
+        if ch == '\\': cur += body[i:i + 2]; i += 2; continue
+        if ch == '{':
+            if body.startswith('{{', i): cur += '{'; i += 2; continue
+            j = body.find('}', i)
+            if j < 0: raise Unsupported('format template: unclosed {')
+            inner = body[i + 1:j]
+            name, _, spec = inner.partition(':')
+            name = name.strip()
+            if name and not re.fullmatch(r'[A-Za-z_][A-Za-z0-9_]*', name): raise Unsupported('format template: positional index / expression ' + inner)
+            if cur: out.append(('lit', cur)); cur = ''
+            out.append(('arg', name, bool(spec)))
+            i = j + 1; continue
+        if ch == '}':
+            if body.startswith('}}', i): cur += '}'; i += 2; continue
+            raise Unsupported('format template: stray }')
+        cur += ch; i += 1
+    if cur: out.append(('lit', cur))
+    return out
+
+
+def r6s_format_structured(src, ctx):
+    while True:
+        ct = _ct(src)
+        hit = None
+        for i in range(len(ct) - 2):
+            if ct[i].k == 'id' and ct[i].t in ('format', 'writeln', 'write') and ct[i + 1].t == '!' and ct[i + 2].t == '(':
+                hit = i                      # keep the last one: inner invocations are rewritten before the one that contains them
+        if hit is None: return src
+        i = hit; macro = ct[i].t
+        c = match_close(ct, i + 2)
+        args = _split_args(ct, i + 2, c)
+        txt = lambda a: src[ct[a[0]].s:ct[a[1] - 1].e]
+        dest = None
+        if macro != 'format':
+            if not args or args[0][1] - args[0][0] != 1 or ct[args[0][0]].k != 'id': raise Unsupported(f'{macro}! destination is not a plain variable')
+            dest = txt(args[0]); args = args[1:]
+        if not args or args[0][1] - args[0][0] != 1 or ct[args[0][0]].k != 'str': raise Unsupported(f'{macro}! without a literal template')
+        pieces = _parse_template(ct[args[0][0]].t)
+        pos, named = [], {}
+        for a in args[1:]:
+            if a[1] - a[0] >= 3 and ct[a[0]].k == 'id' and ct[a[0] + 1].t == '=' and ct[a[0] + 2].t != '=':
+                named[ct[a[0]].t] = src[ct[a[0] + 2].s:ct[a[1] - 1].e]
+            else: pos.append(txt(a))
+        lets, shown, nextpos = [], [], 0
+        for pc in pieces:
+            if pc[0] == 'lit':
+                if macro == 'format': shown.append(f'FmtPiece::Lit("{pc[1]}"@)')
+                continue
+            _, name, has_spec = pc
+            if name and name not in named: ex = f'{name}.show()'
+            else:
+                if name: e = named[name]
+                else:
+                    if nextpos >= len(pos): raise Unsupported(f'{macro}!: more placeholders than arguments')
+                    e = pos[nextpos]; nextpos += 1
+                v = ctx.fresh('fa'); lets.append(f'let {v} = &({e});'); ex = f'{v}.show()'
+            if macro == 'format': shown.append(('FmtPiece::SpecArg(' if has_spec else 'FmtPiece::Arg(') + ex + ')')
+            else: shown.append(ex)
+        if nextpos != len(pos): raise Unsupported(f'{macro}!: unused positional arguments')
+        g = ctx.fresh('fg')
+        tpl = ct[args[0][0]].t
+        lets.insert(0, '/*' + macro + '! ' + (tpl if '*/' not in tpl and '\n' not in tpl else '') + '*/')
+        if macro == 'format':
+            rep = '{ ' + ' '.join(lets) + f' let ghost {g}: Seq<FmtPiece> = seq![{", ".join(shown)}]; verif_format(Ghost({g})) }}'
+        else:
+            rep = '{ ' + ' '.join(lets) + f' let ghost {g}: Rec = seq![{", ".join(shown)}]; {dest}.verif_writeln(Ghost({g})) }}'
+        ctx.log.append(('R6s', re.sub(r'\s+', ' ', src[ct[i].s:ct[c].e])[:160], re.sub(r'\s+', ' ', rep)[:200]))
+        src = src[:ct[i].s] + rep + src[ct[c].e:]
+
+
+def r22_str_methods(src, ctx):
+    """`X.trim_end()` -> verif_trim_end(&X); `X.trim_end().to_string()` -> verif_str_to_string(verif_trim_end(&X)); `<that> + "lit"` -> verif_str_add"""
+    while True:
+        ct = _ct(src)
+        hit = None
+        for i in range(1, len(ct) - 3):
+            if ct[i].t == 'trim_end' and ct[i - 1].t == '.' and ct[i + 1].t == '(' and ct[i + 2].t == ')':
+                hit = i; break
+        if hit is None: return src
+        i = hit
+        r0 = recv_start(ct, i - 2)
+        recv = src[ct[r0].s:ct[i - 2].e]
+        end = i + 2
+        rep = f'verif_trim_end(&{recv})'
+        if end + 4 < len(ct) and ct[end + 1].t == '.' and ct[end + 2].t == 'to_string' and ct[end + 3].t == '(' and ct[end + 4].t == ')':
+            end += 4; rep = f'verif_str_to_string({rep})'
+            if end + 2 < len(ct) and ct[end + 1].t == '+' and ct[end + 2].k == 'str':
+                rep = f'verif_str_add({rep}, {ct[end + 2].t})'; end += 2
+        ctx.log.append(('R22', src[ct[r0].s:ct[end].e], rep))
+        src = src[:ct[r0].s] + rep + src[ct[end].e:]
 
 # ---------------------------------------------------------------- R5 let-chain
 
@@ -933,6 +1048,9 @@ def apply_all(src, ctx):
     src = r16_ref_pattern(src, ctx)
     src = r14_wild_closure(src, ctx)
     src = r1_derive(src, ctx)
+    if getattr(ctx, 'fmt_structured', False):
+        src = r6s_format_structured(src, ctx)
+        src = r22_str_methods(src, ctx)
     src = r6_format(src, ctx)
     src = r5_let_chain(src, ctx)
     src = r8_sort(src, ctx)
